@@ -17,6 +17,7 @@ func init() { register("C17", checkC17) }
 func checkC17(r *core.Run) {
 	r.Explanation = "C17 (structural clauses only): every write of Binding, Update and UpdatePaymentAddress is dominated on all paths by the tests the statement names (account unbound, no existing auth, proof verified, fresh, submitter bound once the DID exists, document id recomputed; all accounts handled and the payment account never unbound; sid payment address only for an account bound to that DID, key payment address only once, only by the address itself and only if the address has no key DID yet); the binding tables are written only from those handlers, genesis and the v2 migration; the bytes a binding proof signs must depend on the DID and timestamp it claims. Decides guard dominance, capability and data dependence; whole-table agreement is not decided."
 	r.Rule("G-bind / G-upd / G-pay: guard rows of DESIGN A.2 evaluated path-sensitively; for-all requirements are recognised as range loops whose every iteration passes the inner test")
+	r.Rule("T-paykey: in UpdatePaymentAddress the PaymentAddress/Kid records are written under msg.Did (or the bound DID tested equal to it) and the parsed account address, i.e. the same keys the guards looked up")
 	r.Rule("T-payload: in verifyBindingProof the message passed to signature verification/recovery must data-depend on proof.Did and proof.Timestamp")
 	r.Rule("CAP-did: the nine binding/payment prefixes of module did are written only from {Binding, Update, UpdatePaymentAddress, did genesis, did v2 migration}")
 	r.Assume(aDeps)
@@ -84,6 +85,12 @@ func checkC17(r *core.Run) {
 	}
 	evalGuardBranch(r, "G-pay", "did/keeper.msgServer.UpdatePaymentAddress", guard.Eq(method, "\"sid\""), "sid", sidClauses)
 	evalGuardBranch(r, "G-pay", "did/keeper.msgServer.UpdatePaymentAddress", guard.Eq(method, "\"key\""), "key", keyClauses)
+	// the records are written under the very DID string the guards looked up (msg.Did, or the bound DID proven equal to it)
+	upa := "did/keeper.msgServer.UpdatePaymentAddress"
+	evalStoreVal(r, "T-paykey", upa, "did/types.PaymentAddress.Did", []string{msg + ".Did", k + "GetDid(*)#0.Did"}, "the payment-address record is keyed by the DID string the immutability/ownership guards read (a normalised or otherwise derived key is not covered by them)")
+	evalStoreVal(r, "T-paykey", upa, "did/types.Kid.Kid", []string{msg + ".Did"}, "the address->key-DID link names the DID string the guards read")
+	evalStoreVal(r, "T-paykey", upa, "did/types.PaymentAddress.Address", []string{caip + ".Address"}, "the payment address is the address of the parsed account id that the guards compared")
+	evalStoreVal(r, "T-paykey", upa, "did/types.Kid.Address", []string{caip + ".Address"}, "the linked address is the address of the parsed account id that the guards compared")
 
 	// ---- T-payload
 	if f := r.Func("T-payload", "did/keeper.Keeper.verifyBindingProof"); f != nil {
